@@ -339,6 +339,7 @@ func (u *Unit) chanRecvEffect(st *State, ch Value) {
 	u.famSort("CH:len", as)
 	cur := u.fam(st, "CH:len", as)
 	l := app("select", cur, ch.T)
+	st.assume(app("<=", "0", l))
 	u.setFam(st, "CH:len", as, app("store", cur, ch.T, app("ite", app(">", l, "0"), app("-", l, "1"), l)))
 }
 
@@ -349,6 +350,8 @@ func (u *Unit) chanSendEffect(st *State, ch Value) {
 	cur := u.fam(st, "CH:len", as)
 	l := app("select", cur, ch.T)
 	c := app("select", u.fam(st, "CH:cap", as), ch.T)
+	// channel axiom: 0 <= len <= cap
+	st.assume(and(app("<=", "0", l), app("<=", l, c)))
 	// a blocking send returns only when there was room (buffered) or a receiver took the value (unbuffered: len stays 0)
 	st.assume(or(app("<", l, c), app("=", c, "0")))
 	u.setFam(st, "CH:len", as, app("store", cur, ch.T, app("ite", app("<", l, c), app("+", l, "1"), l)))
@@ -484,6 +487,9 @@ func (u *Unit) havocHeap(st *State, why string) {
 	for _, k := range sortedKeys(fams) {
 		if strings.HasPrefix(k, "G:") || k == "alloc" || strings.HasPrefix(k, "V:") {
 			continue
+		}
+		if strings.HasPrefix(k, "CH:") && u.c != nil && u.c.Flags["private_channels"] {
+			continue // the unit's channels never escape to the code being called (stated assumption of the unit)
 		}
 		if _, touched := st.heap[k]; !touched && !u.declared[quote(k+"@0")] {
 			continue
@@ -1001,6 +1007,20 @@ func (u *Unit) havocModifies(sev *Ev, mods []Clause, c *Contract) {
 					v := sev.expr(call.Args[0])
 					u.havocMap(sev, v)
 					continue
+				case "wg":
+					key := u.objKey(sev, call.Args[0])
+					as := arraySort(SRef, SInt)
+					u.famSort("G:wg", as)
+					u.setFam(st, "G:wg", as, app("store", u.fam(st, "G:wg", as), key, u.fresh("wg", SInt)))
+					continue
+				case "chanLen":
+					chv := sev.expr(call.Args[0])
+					as := arraySort(SRef, SInt)
+					u.famSort("CH:len", as)
+					fl := u.fresh("chlen", SInt)
+					st.assume(app(">=", fl, "0"))
+					u.setFam(st, "CH:len", as, app("store", u.fam(st, "CH:len", as), chv.T, fl))
+					continue
 				case "calls":
 					f := sev.expr(call.Args[0])
 					as := arraySort(SRef, SInt)
@@ -1192,7 +1212,7 @@ func (u *Unit) syncCall(ev *Ev, x *ast.CallExpr, f *types.Func, recv *Value) (Va
 		tn = n.Obj().Name()
 	}
 	switch tn {
-	case "Mutex", "RWMutex":
+	case "Mutex", "RWMutex", "Locker":
 		sel, ok := ast.Unparen(x.Fun).(*ast.SelectorExpr)
 		if !ok {
 			return Value{K: vTuple}, true
@@ -1205,6 +1225,22 @@ func (u *Unit) syncCall(ev *Ev, x *ast.CallExpr, f *types.Func, recv *Value) (Va
 			fv := ev.expr(x.Args[0])
 			if fv.K == vFunc {
 				u.subsetErr(x.Pos(), "sync.Once.Do with a literal is not modelled")
+			}
+			return Value{K: vTuple}, true
+		}
+		if tn == "Cond" && name == "Wait" {
+			// Wait releases the condition's lock and re-acquires it: Unlock + Lock on the owner's lock invariant
+			if sel, ok := ast.Unparen(x.Fun).(*ast.SelectorExpr); ok {
+				if owner, ok := ast.Unparen(sel.X).(*ast.SelectorExpr); ok {
+					base := ev.expr(owner.X)
+					for k, li := range u.eng.cs.LockInvs {
+						if tk := typeInvKey(base.Typ); tk != "" && strings.HasPrefix(k, tk+".") {
+							muExpr := &ast.SelectorExpr{X: owner.X, Sel: ast.NewIdent(li.Field)}
+							u.lockOp(ev, muExpr, "Unlock", x)
+							u.lockOp(ev, muExpr, "Lock", x)
+						}
+					}
+				}
 			}
 			return Value{K: vTuple}, true
 		}
